@@ -92,6 +92,8 @@ func (h *half) waitData(d time.Duration) (have bool, closed bool) {
 // until data arrives or the peer closes.  Close closes both directions, as closing a TCP socket does.
 type End struct {
 	in, out *half
+	// ReadHook, if set, is called at the start of every Read on this end (in the reader's goroutine).
+	ReadHook func()
 }
 
 func Pipe() (a, b *End) {
@@ -99,7 +101,12 @@ func Pipe() (a, b *End) {
 	return &End{in: x, out: y}, &End{in: y, out: x}
 }
 
-func (e *End) Read(p []byte) (int, error)  { return e.in.read(p) }
+func (e *End) Read(p []byte) (int, error) {
+	if e.ReadHook != nil {
+		e.ReadHook()
+	}
+	return e.in.read(p)
+}
 func (e *End) Write(p []byte) (int, error) { return e.out.write(p) }
 func (e *End) Close() error {
 	e.in.close()
